@@ -335,3 +335,11 @@ Example C04_witness_tick :
   tick_picks (Z.to_nat nsqd_opt_QueueScanSelectionCount) 5 [7; 3; 9; 1; 4; 8]%nat = [2; 4; 0; 1; 3]%nat /\
   length (tick_picks (Z.to_nat nsqd_opt_QueueScanSelectionCount) 50 (seq 3 40)) = 20%nat.
 Proof. vm_compute. split; reflexivity. Qed.
+
+(* The model is tied to the CURRENT source: the order-of-effects facts about nsqd's core
+   functions that the model assumes (proofs/CoreSrcDefs.v) hold of the statement skeletons
+   regenerated from /repo on this run (gen/CoreShape.v). *)
+From NSQV Require proofs.CoreSrcDefs proofs.CoreSrcC04.
+Theorem C04_source_shape : CoreSrcDefs.src_facts_C04.
+Proof. exact CoreSrcC04.src_C04. Qed.
+Print Assumptions C04_source_shape.
